@@ -23,6 +23,8 @@ Same functions under contract as C15 (contracts/c15.py holds the shared machiner
         is handed over as Markup(concat(buf)) exactly when autoescape is on for the frame, as plain concat(buf) when it is off, by a
         run-time test when the frame is volatile; only a macro body returns the plain text (Macro._invoke wraps it).  Plus a table over the
         call sites of return_buffer_contents: force_unescaped=True in macro_body only.
+  C16.once.wrappers.emitted.eval_ctx_restore  visit_ScopedEvalContextModifier reverts the run-time flags in a finally clause.
+  C16.once.filter.join / replace  under autoescape a result built from a Markup operand is Markup (ghost-tag algebra of C15).
   C16.once.dependency        bounded check of the dependency specs on the installed MarkupSafe:
         escape(Markup(x)) is Markup(x); str(s) is s; unescape(escape(s)) == s.
 Lemma (argued in DESIGN section 5): for escaping-neutral templates unescape(render_on) == render_off.
@@ -164,6 +166,11 @@ def forward_tasks():
                 tasks.append(K.CatEmitTask("C16", "C16.once.forward.visit_For", "jinja2.compiler:CodeGenerator.visit_For", N.For, once_forward_pred,
                                            mode=mode, buffers=(buf,), replay_fn=native_once, node_fields={"recursive": True}))
             continue
+        if nm == "Const":
+            from pyvc.values import sym as _sym
+            tasks.append(K.CatEmitTask("C16", "C16.once.forward.visit_Const", "jinja2.compiler:CodeGenerator.visit_Const", N.Const, once_forward_pred,
+                                       mode=mode, buffers=(None, "t_buf"), replay_fn=native_once, node_fields=lambda st: {"value": _sym("node.value", "str")}))
+            continue
         tasks.append(K.CatEmitTask("C16", f"C16.once.forward.visit_{nm}", f"jinja2.compiler:CodeGenerator.visit_{nm}", getattr(N, nm), once_forward_pred,
                                    mode=mode, buffers=(None, "t_buf"), replay_fn=native_once, min_paths=(4 if nm in FORWARDERS else 1)))
     return tasks
@@ -204,6 +211,7 @@ def extends_tail(task, tier, seed):
 
 
 EMITS_ESCAPE = {"CodeGenerator._output_child_pre": "the Output wrapper (C16.once.output)",
+                "CodeGenerator.visit_CallBlock": "escape of the value of a call block's callee (identity on the Markup a macro returns)",
                 "CodeGenerator.visit_FilterBlock": "escape of a block filter's result (identity on Markup; C16.once.forward.visit_FilterBlock)",
                 "CodeGenerator.visit_AssignBlock": "escape of a set-block filter's result (identity on Markup; C16.once.forward.visit_AssignBlock)"}
 
@@ -366,6 +374,9 @@ def emitted_wrapper_tasks():
         t.bound_text = "parameter list of the macro fixed to one symbolic parameter without default"
         ts.append(t)
     ts.append(FnTask("C16", "C16.once.wrappers.emitted.force_unescaped_sites", force_unescaped_sites, "table", native_once))
+    # the run-time flag that the wrappers consult is restored on every way out of an {% autoescape %} block (hunt C16_1, root of C15_3)
+    ts.append(K.CatEmitTask("C16", "C16.once.wrappers.emitted.eval_ctx_restore", "jinja2.compiler:CodeGenerator.visit_ScopedEvalContextModifier", N.ScopedEvalContextModifier,
+                            K.eval_ctx_restore_pred, mode="stmts", buffers=(None, "t_buf"), replay_fn=K.native_eval_ctx_restore, min_paths=4))
     return ts
 
 
@@ -468,6 +479,8 @@ WRAPPERS = ["Macro._invoke", "Macro._async_invoke", "BlockReference.__call__", "
 
 class OnceWrapper(K.WrapperVC):
     def replay(self, w):
+        if isinstance(w, dict) and str(w.get("wrapper", "")).startswith("TemplateModule"):
+            return K.native_mixed_flags(w)
         return native_once(w)
 
 
@@ -485,6 +498,7 @@ TASKS = (
        FnTask("C16", "C16.once.forward.escape_inventory", escape_inventory, "table", native_once)]
     + [OnceWrapper("C16", f"C16.once.wrappers.{w}", w, ["markup_iff_autoescape", "text_is_generated_output_once"]) for w in WRAPPERS]
     + emitted_wrapper_tasks()
+    + [K.FlowTask("C16", f"C16.once.filter.{f}", f, "markup_preserved") for f in ("join", "replace")]
     + [FnTask("C16", "C16.once.dependency", dependency, "bounded", native_once)]
 )
 
